@@ -58,7 +58,7 @@ Dom == [ i  |-> {"in1", "in2", "EMPTY"},
          d  |-> {"map1", "map2"},
          w  |-> {"w1", "w2"},
          n  |-> {"n1", "n2"},
-         r  |-> {"r1", "r2"},
+         r  |-> {"r1", "r2", "r3"},       \* r2, r3 contain capitals (the secrets stage compares exactly)
          pp |-> {"pp1", "pp2", "ppdef"},
          pa |-> {"pa1", "parfc", "pamix"},
          hb |-> {"m1", "h0", "h8", "h17", "h32", "h33"} ]
@@ -75,11 +75,28 @@ Items == [ pp1   |-> {"192.168.2.0/24"},
            parfc |-> RFC1918,
            pamix |-> {"11.11.0.0/16", "111.111.111.111"} \cup RFC1918 ]
 
+\* How an option given on the command line is spelled (v.sp[o]; None when the
+\* option is not on the command line).  Every legal spelling is the same option:
+\*   long  --as-numbers V     eq     --as-numbers=V     short -n V    glued -nV
+\*   abbr  --as-num V         abbreq --as-num=V         (unambiguous prefixes)
+\*   any   the harness picks one of long / eq / short (seeded)
+\* Flags: long, short, abbr.  pp pa pv hb have no short form.  The empty string
+\* cannot be glued.  Decision and Params do not depend on the spelling; the only
+\* freedom: an implementation may refuse abbreviations altogether (MayReject).
+Shortless == {"pp", "pa", "pv", "hb"}
+Spells(o) == (IF o \in Flags THEN {"long", "short", "abbr"}
+              ELSE {"long", "eq", "short", "glued", "abbr", "abbreq"})
+             \ (IF o \in Shortless THEN {"short", "glued"} ELSE {})
+SpellOK(v, o) == IF v.cli[o] = None THEN v.sp[o] = None
+                 ELSE /\ v.sp[o] \in Spells(o) \cup {"any"}
+                      /\ ~(v.sp[o] = "glued" /\ v.cli[o] = "EMPTY")
+UsesAbbrev(v) == \E o \in Opts : v.sp[o] \in {"abbr", "abbreq"}
 CliVals(o) == IF o \in Flags THEN {None, "on"} ELSE {None} \cup Dom[o]
 CfgVals(o) == IF o \in Flags THEN {None, "true", "false"} ELSE {None} \cup Dom[o]
 WellFormed(v) ==
   /\ DOMAIN v.cli = Opts /\ DOMAIN v.cfg = Opts
-  /\ \A o \in Opts : v.cli[o] \in CliVals(o) /\ v.cfg[o] \in CfgVals(o)
+  /\ DOMAIN v.sp = Opts
+  /\ \A o \in Opts : v.cli[o] \in CliVals(o) /\ v.cfg[o] \in CfgVals(o) /\ SpellOK(v, o)
 
 \* ---- precedence ---------------------------------------------------------
 Eff(v, o)     == IF v.cli[o] # None THEN v.cli[o] ELSE v.cfg[o]
@@ -100,7 +117,8 @@ MustReject(v) == Reasons(v) # {}
 \* don't-care: an unusable config-file value (host bits out of range, empty
 \* input/output) that the command line overrides with a usable one - an
 \* implementation may validate each source on its own
-MayReject(v)  == MustReject(v) \/ HbBad(v.cfg["hb"]) \/ v.cfg["i"] = "EMPTY" \/ v.cfg["o"] = "EMPTY"
+MayReject(v)  == \/ MustReject(v) \/ HbBad(v.cfg["hb"]) \/ v.cfg["i"] = "EMPTY" \/ v.cfg["o"] = "EMPTY"
+                 \/ UsesAbbrev(v)   \* don't-care: abbreviations refused as a whole (but if accepted: same option)
 AnyAnon(v)    == On(v, "a") \/ On(v, "p") \/ On(v, "u") \/ Given(v, "w") \/ Given(v, "n")
 Decision(v)   == IF MustReject(v) THEN "Reject" ELSE IF ~AnyAnon(v) THEN "NoOutput" ELSE "Run"
 
@@ -188,5 +206,10 @@ EmptySaltIsASalt(v) ==
                            /\ Comparable(v)
                            /\ Decision(v) = Decision(Flip(v, "s", "s1", None))
                            /\ Params(v).salt = "EMPTY"
-RTheorems(v) == EmptySaltIsASalt(v) /\ PlacementIrrelevant(v) /\ DefaultsApply(v) /\ PrivateIsListing(v) /\ ListedRejects(v)
+SpellingIrrelevant(v) ==
+  \A o \in Opts : v.cli[o] # None =>
+     \A x \in Spells(o) : LET y == [v EXCEPT !.sp[o] = x] IN
+        /\ Decision(y) = Decision(v) /\ Params(y) = Params(v) /\ Reasons(y) = Reasons(v)
+        /\ (~UsesAbbrev(y) /\ ~UsesAbbrev(v)) => MayReject(y) = MayReject(v)
+RTheorems(v) == SpellingIrrelevant(v) /\ EmptySaltIsASalt(v) /\ PlacementIrrelevant(v) /\ DefaultsApply(v) /\ PrivateIsListing(v) /\ ListedRejects(v)
 =============================================================================
